@@ -480,3 +480,56 @@ def shared_point_family(ks=(2, 3)):
             label = 'k%d%s%s/%s/%s%s' % (k, 'D' if dist else '', 'S' if srt else '', kind, 'named' if named else 'unnamed', '+outer-named' if outer_named else '')
             out.append((label, spec, dnas))
   return out
+
+# ------------------------------------------------------------------------------------------------
+# systematic family: chains of conditional single choices of every depth ending in every kind of sub-space
+def nesting_chain_family(max_depth=4):
+  """oneof -> oneof -> ... -> terminal, depth 1..max_depth, where terminal is a leaf (constant), a float, a custom point,
+  a Space with 2 or 3 points, or a manyof with k = 2 / 3 (distinct and not).  At every level the continuing candidate is
+  tried at index 0 and at the last index; the root Space holds the chain alone or next to a second decision point.
+  DNAs: every branch of the chain is chosen (stop at level j < depth by picking the constant, or go all the way) with
+  every (small) terminal decision.  Returns [(label, spec, [(dna_label, sdna), ...]), ...]."""
+  def c2(loc, name=None): return ('C', 1, [('S', []), ('S', [])], True, False, (loc,), name, ())
+  terminals = {
+      'leaf': (('S', []), [[]]),
+      'float': (('S', [('F', 0.0, 1.0, ('t',), None)]), [[('f', 0.5)]]),
+      'custom': (('S', [('X', ('t',), None)]), [[('s', 'abc')]]),
+      'space2': (('S', [c2('t0'), c2('t1')]), [[('c', [(0, [])]), ('c', [(1, [])])], [('c', [(1, [])]), ('c', [(1, [])])]]),
+      'space3': (('S', [c2('t0'), ('F', 0.0, 1.0, ('t1',), None), c2('t2')]), [[('c', [(1, [])]), ('f', 0.25), ('c', [(0, [])])]]),
+      'manyof2': (('S', [('C', 2, [('S', [])] * 3, True, False, ('t',), None, ())]), [[('c', [(2, []), (0, [])])], [('c', [(0, []), (1, [])])]]),
+      'manyof3': (('S', [('C', 3, [('S', [])] * 3, False, True, ('t',), None, ())]), [[('c', [(0, []), (0, []), (2, [])])]]),
+      'manyof2-nested': (('S', [('C', 2, [('S', []), ('S', [c2('u')])], False, False, ('t',), None, ())]),
+                         [[('c', [(1, [('c', [(1, [])])]), (0, [])])], [('c', [(1, [('c', [(0, [])])]), (1, [('c', [(1, [])])])])]]),
+  }
+  out = []
+  for depth in range(1, max_depth + 1):
+    for tname, (tspace, tdecs) in terminals.items():
+      for cont_last in (False, True):
+        # build from the inside out; level j's oneof has candidates [const, next] or [next, const, const]
+        def build(j):
+          if j == depth: return tspace
+          nxt = build(j + 1)
+          cands = [('S', []), ('S', []), nxt] if cont_last else [nxt, ('S', [])]
+          return ('S', [('C', 1, cands, True, False, ('l%d' % j,), None, ())])
+        chain = build(0)
+        ci = 2 if cont_last else 0          # index that continues the chain
+        si = 0 if cont_last else 1          # index that stops
+        def dna(stop_at, tdec):
+          # stop_at = j: levels 0..j-1 continue, level j picks the constant; stop_at = depth: all the way with tdec
+          def lvl(j):
+            if j == depth: return tdec
+            if j == stop_at: return [('c', [(si, [])])]
+            return [('c', [(ci, lvl(j + 1))])]
+          return lvl(0)
+        for with_sibling in (False, True):
+          spec = ('S', chain[1] + ([c2('z')] if with_sibling else []))
+          dnas = []
+          for stop_at in range(depth):
+            dnas.append(('stop@%d' % stop_at, dna(stop_at, None)))
+          for ti, tdec in enumerate(tdecs):
+            dnas.append(('full/%d' % ti, dna(depth, tdec)))
+          if with_sibling:
+            dnas = [(l, d + [('c', [(1, [])])]) for l, d in dnas]
+          dnas = [(l, d) for l, d in dnas if valid(spec, d)]
+          out.append(('depth%d/%s/%s%s' % (depth, tname, 'last' if cont_last else 'first', '+sibling' if with_sibling else ''), spec, dnas))
+  return out
